@@ -289,7 +289,9 @@ def node (line : String) : String :=
             let m := maxAbs ((inp.flatten ++ out.flatten).map sc)
             let tol : Tol := if mode == "x" then ⟨0, 1⟩ else ⟨m * m, 1000000000000000000⟩
             let v := nodeVerdict tol (inp.map fun l => l.map sc) (out.map fun l => l.map sc)
-            if v == "ok" then "ok" else "violated:" ++ v
+            if v != "ok" then "violated:" ++ v
+            else if !nodeCheck tol (inp.map fun l => l.map sc) (out.map fun l => l.map sc) then "violated:nodeCheck"
+            else "ok"
           | none => "non-finite"
         | _ => "bad-line"
       | _ => "bad-line"
